@@ -5,6 +5,7 @@ import (
 	"go/constant"
 	"go/token"
 	"go/types"
+	"strings"
 	"sort"
 
 	"verif/checker/core"
@@ -34,6 +35,8 @@ type c02Type struct {
 func c02(p *core.Program, r *core.Report) {
 	r.Rule("R1", "lookaside coherence: for every Containers implementation that caches its most recently used container (a *Container field paired with a uint64 key field), every method path that writes the underlying collection (tree Set/Put/Delete/Every, slice/tree reassignment, element stores) also (re)assigns the lookaside key or runs under `key != lastKey`; a collection write into another, freshly constructed object requires that a fresh object's lookaside is invalid (constructor sentinel, or every hit test also requires a non-nil cached container)")
 	r.Rule("R3", "no removal during enumeration: Containers.Remove is not called inside a loop over an iterator of the same collection (the B-tree enumerator is invalidated by Delete); UpdateEvery is the supported way")
+	r.Rule("R4", "found is not position: a container iterator skips keys whose container is nil, so wherever package roaring uses the `found` result of Containers.Iterator(key) to take the first container the iterator yields as the container of that key, it compares the yielded key with the key it asked for")
+	c02FoundIsNotPosition(p, r)
 	r.NotDecided = "agreement of all read paths with the sequential model for all histories; exact changed-bit counts (value reasoning)"
 	rp := p.Pkg("roaring")
 	if rp == nil {
@@ -550,4 +553,99 @@ func c02R3(p *core.Program, r *core.Report, rp *packages.Package) {
 // frozen exceptions for R3
 var c02R3Exempt = map[string]string{
 	"(*Bitmap).removeEmptyContainers": "dead code: not called from any non-test function (confirmed with deadcode); it collects nothing after the first removal on a B-tree but no caller exists",
+}
+
+// c02FoundIsNotPosition: R4.
+func c02FoundIsNotPosition(p *core.Program, r *core.Report) {
+	rp := p.Pkg("roaring")
+	info := rp.TypesInfo
+	n := 0
+	for _, fd := range core.AllFuncDecls(rp) {
+		if fd.Body == nil || strings.HasSuffix(p.Fset.Position(fd.Pos()).Filename, "_test.go") {
+			continue
+		}
+		// citer, found := X.Containers.Iterator(k)
+		ast.Inspect(fd.Body, func(nd ast.Node) bool {
+			as, ok := nd.(*ast.AssignStmt)
+			if !ok || len(as.Lhs) != 2 || len(as.Rhs) != 1 {
+				return true
+			}
+			c, ok := ast.Unparen(as.Rhs[0]).(*ast.CallExpr)
+			if !ok {
+				return true
+			}
+			fn := core.CalleeOf(info, c)
+			if fn == nil || fn.Name() != "Iterator" || len(c.Args) != 1 {
+				return true
+			}
+			if sel, ok := ast.Unparen(c.Fun).(*ast.SelectorExpr); !ok || !strings.HasSuffix(types.TypeString(info.TypeOf(sel.X), nil), "Containers") {
+				return true
+			}
+			fid, ok := as.Lhs[1].(*ast.Ident)
+			if !ok || fid.Name == "_" {
+				return true
+			}
+			foundObj := info.ObjectOf(fid)
+			itObj := info.ObjectOf(as.Lhs[0].(*ast.Ident))
+			n++
+			construct := core.FuncName(fd) + " use of found from Iterator(" + types.ExprString(c.Args[0]) + ")"
+			// every if whose condition mentions found: its body, if it takes a Value(), compares the key
+			bad := ""
+			ast.Inspect(fd.Body, func(m ast.Node) bool {
+				is, ok := m.(*ast.IfStmt)
+				if !ok {
+					return true
+				}
+				mentions := false
+				ast.Inspect(is.Cond, func(k ast.Node) bool {
+					if id, ok := k.(*ast.Ident); ok && info.ObjectOf(id) == foundObj {
+						mentions = true
+					}
+					return true
+				})
+				if !mentions {
+					return true
+				}
+				// keys bound from itr.Value() in the body
+				keyVars := map[types.Object]bool{}
+				takes := false
+				ast.Inspect(is.Body, func(k ast.Node) bool {
+					if va, ok := k.(*ast.AssignStmt); ok && len(va.Rhs) == 1 {
+						if vc, ok := ast.Unparen(va.Rhs[0]).(*ast.CallExpr); ok {
+							if vs, ok := ast.Unparen(vc.Fun).(*ast.SelectorExpr); ok && vs.Sel.Name == "Value" {
+								if id, ok := ast.Unparen(vs.X).(*ast.Ident); ok && info.ObjectOf(id) == itObj {
+									takes = true
+									if kid, ok := va.Lhs[0].(*ast.Ident); ok && kid.Name != "_" {
+										keyVars[info.ObjectOf(kid)] = true
+									}
+								}
+							}
+						}
+					}
+					return true
+				})
+				if !takes {
+					return true
+				}
+				compares := false
+				ast.Inspect(is.Body, func(k ast.Node) bool {
+					if be, ok := k.(*ast.BinaryExpr); ok && (be.Op == token.EQL || be.Op == token.NEQ) {
+						for _, side := range []ast.Expr{be.X, be.Y} {
+							if id, ok := ast.Unparen(side).(*ast.Ident); ok && keyVars[info.ObjectOf(id)] {
+								compares = true
+							}
+						}
+					}
+					return true
+				})
+				if !compares {
+					bad = p.Pos(is.Pos())
+				}
+				return true
+			})
+			r.Check(bad == "", "R4", construct, p.Pos(as.Pos()), "the yielded key is compared with the key asked for", "at "+bad+" the first container the iterator yields is taken as the container of the key because `found` is true, without comparing keys: when the key is present with a nil container the iterator has moved on, and the next container is read in its place")
+			return true
+		})
+	}
+	r.Floor("C02/R4 uses of the iterator's found result", n, 1)
 }
